@@ -1150,11 +1150,14 @@ impl Gen {
     let trunc = if (mode == "ro" || mode == "copy_ro") && self.rng.chance(30) { " trunc=1" } else { "" };
     // every mode has a second entry point taking a path builder
     let pb = if self.rng.chance(35) { " pb=1" } else { "" };
+    // sometimes with the exclusive-creation flag as well (it wins: an existing file must be refused and left
+    // alone), rarely with that flag alone
+    let create_tok: u8 = if create && self.rng.chance(12) { 3 } else if !create && self.rng.chance(4) { 2 } else { create as u8 };
     self.emit(format!(
       "reopen {mode} cap={cap} magic={} freelist={} create={} flavour={flavour} reserved={} minseg={}{trunc}{pb}",
       magic.unwrap_or(c.magic),
       FREELISTS[freelist.unwrap_or(c.freelist) as usize],
-      create as u8,
+      create_tok,
       c.reserved,
       c.minseg
     ))
